@@ -80,7 +80,8 @@ RECURSIVE DedupR(_, _, _)
 DedupR(s, i, acc) == IF i > Len(s) THEN acc
                      ELSE DedupR(s, i + 1, IF i > 1 /\ s[i] = s[i - 1] THEN acc ELSE Append(acc, s[i]))
 Dedup(s) == DedupR(s, 1, <<>>)
-CpuOK(e, x) ==
+\* (domain: programs that fit -- a REP/SEP refused for capacity has already updated the tracker)
+CpuOK(e, x) == e.fit =>
   /\ ~x.panic
   /\ Dedup(x.fetches) = e.starts
   /\ x.mEnd = (IF M8(e) THEN 1 ELSE 0) /\ x.xEnd = (IF X8(e) THEN 1 ELSE 0)
